@@ -212,6 +212,20 @@ class World(object):
                 with seam.real_open(p, "wb") as f:
                     f.write(c)
 
+    def scribble(self, idx, on):
+        """Harness action standing for the caller: rewrite its own input files of content ``idx`` in place
+        (same inode), or put the original bytes back."""
+        data = self.contents[idx]
+        junk = (b"\xa5scribbled\x5a" * (len(data) // 11 + 2))[: max(len(data), 1) + 3]
+        with seam.passthrough():
+            for name in ("c%d" % idx, "c%d.copy" % idx):
+                p = os.path.join(self.input_dir, name)
+                if os.path.exists(p):
+                    with seam.real_open(p, "r+b") as f:
+                        f.seek(0)
+                        f.write(junk if on else data)
+                        f.truncate()
+
     def props(self, cfg=None):
         cfg = cfg or self.cfg
         # "relstore": the store is configured with a path relative to the caller's working directory
